@@ -20,6 +20,7 @@ import (
 	"go/token"
 	"os"
 	"path/filepath"
+	"regexp"
 	"sort"
 	"strconv"
 	"strings"
@@ -253,6 +254,25 @@ func (p *pkg) fingerprint(name string) (string, bool) {
 	return hex.EncodeToString(h[:8]), true
 }
 
+var pairKeyRe = regexp.MustCompile(`\("((?:[^"\\]|\\.)*)", \d+\)`)
+
+// missingKeys: the string keys of `List (String × Nat)` tables present in the baseline text of a
+// group and absent from its fresh text
+func missingKeys(base, fresh string) []string {
+	have := map[string]bool{}
+	for _, m := range pairKeyRe.FindAllStringSubmatch(fresh, -1) {
+		have[m[1]] = true
+	}
+	var gone []string
+	for _, m := range pairKeyRe.FindAllStringSubmatch(base, -1) {
+		if !have[m[1]] {
+			gone = append(gone, m[1])
+			have[m[1]] = true
+		}
+	}
+	return gone
+}
+
 func printNode(n any) string {
 	var buf bytes.Buffer
 	cfg := printer.Config{Mode: printer.RawFormat}
@@ -377,6 +397,15 @@ func main() {
 			key := mod.dir + "/" + t.name
 			sub := &emitter{}
 			err := runGroup(t, sub, filepath.Join(*repo, mod.dir), mod.dir == ".")
+			if err == nil {
+				// a table keyed by source text (error-site format strings): the model looks entries up
+				// by those keys, so a key of the baseline that is gone is a changed shape, not a value
+				if fb, ok := baseline[key]; ok {
+					if gone := missingKeys(fb, sub.b.String()); len(gone) > 0 {
+						err = fmt.Errorf("keys the model looks up are gone (texts changed): %q", gone)
+					}
+				}
+			}
 			if err == nil {
 				fresh[key] = sub.b.String()
 				e.b.WriteString(sub.b.String())
